@@ -1843,10 +1843,38 @@ func TestC16_logistic_regression_stationary(t *testing.T) {
 		}
 		theta2, _, err2, p2, to2 := run(!sparse)
 		if !to2 && p2 == "" && err2 == nil && !capped {
-			for j := range theta {
-				if math.Abs(theta[j]-theta2[j]) > 2e-3*sc {
-					t.Fatalf("%s: %v with this storage, %v with the other storage of the same data", c.Desc(), theta, theta2)
+			// the minimiser may be weakly determined (as many parameters as rows): the two answers must
+			// reach the same value of the objective
+			F := func(th []float64) float64 {
+				v := 0.0
+				for i := range rows {
+					r := th[0]
+					for j := range rows[i] {
+						r += rows[i][j] * th[j+1]
+					}
+					if labels[i] {
+						v += cw[1] * math.Log1p(math.Exp(-r)) / float64(N)
+					} else {
+						v += cw[0] * math.Log1p(math.Exp(r)) / float64(N)
+					}
 				}
+				n1, n2 := 0.0, 0.0
+				for j := 1; j <= k; j++ {
+					n1 += math.Abs(th[j])
+					n2 += th[j] * th[j]
+				}
+				switch reg {
+				case "l1":
+					v += tau * n1
+				case "l2":
+					v += tau * math.Sqrt(n2)
+				case "ti":
+					v += tau * n2 / 2
+				}
+				return v
+			}
+			if f1, f2 := F(theta), F(theta2); math.Abs(f1-f2) > 1e-5*(1+math.Abs(f1)) {
+				t.Fatalf("%s: %v (objective %v) with this storage, %v (objective %v) with the other storage of the same data", c.Desc(), theta, f1, theta2, f2)
 			}
 			c.Class("agrees with the other storage")
 		}
